@@ -236,7 +236,11 @@ func (vc *VC) lockCheck(fx *FuncCtx, st *State, p *PtrV, write bool, pos token.P
 	if write {
 		what = "write"
 	}
-	vc.check(fx, st, held, "unprotected "+what+" of "+field+" (guarded by "+mu+")", pos)
+	if held.IsConst && held.B {
+		return
+	}
+	desc := "unprotected " + what + " of " + field + " (guarded by " + mu + ")"
+	vc.oblige(st, "lock:"+desc+"@"+vc.relPos(fx, pos), "safety", held, tagsOf(vc.fc), desc+" at "+vc.posStr(pos))
 }
 
 // lockState: whether a lock is held; before the function has locked or unlocked it itself the answer is whatever the
